@@ -19,6 +19,10 @@ ran to its end (or it counts the started threads): no sentinel outlives the
 call in the queue of the backend. BACKEND-OWNED - a backend (and its queue) is
 built per call / per Scheduler, never once for the process (class attribute,
 module-level object, default parameter value).
+REL-2 / REL-4 (liveness side of the decision table): a task leaves the
+master's list without being queued (row returning None) only when it is DONE,
+and a row returning WAITING keeps it WAITING: a task dropped while PENDING or
+WAITING is never run and its dependents wait for ever.
 Not decided: termination of Task.do, liveness under unfair OS scheduling.
 '''
 ASSUMPTIONS = [
@@ -35,6 +39,7 @@ def check(ctx):
     ctx.run(sched_worker.check_wait_sent)
     ctx.run(sched_rel.check_lock)
     ctx.run(sched_worker.check_backend_owned)
+    ctx.run(sched_rel.check_rel, {'REL-2', 'REL-4'})
 
 
 from ..variants import sched as _v   # noqa: E402
